@@ -612,25 +612,32 @@ fn range<'s>(input: &mut &'s str) -> PResult<Vec<BoundSet>, SemverParseError<&'s
     // need to do some stuff here to filter out unwanted BoundSets.
     Parser::map(
         separated(0.., simple, space1),
-        |bs: Vec<Option<BoundSet>>| {
-            bs.into_iter()
-                .flatten()
-                .fold(Vec::new(), |mut acc: Vec<BoundSet>, bs| {
-                    if let Some(last) = acc.pop() {
-                        if let Some(bound) = last.intersect(&bs) {
-                            acc.push(bound);
-                        } else {
-                            acc.push(last);
-                            acc.push(bs);
-                        }
-                    } else {
-                        acc.push(bs)
-                    }
-                    acc
-                })
-        },
+        |bs: Vec<Option<BoundSet>>| intersect_all(&bs),
     )
     .parse_next(input)
+}
+
+// A space separated list of comparators admits what all of its comparators
+// admit. When they have nothing in common the list admits nothing.
+fn intersect_all(comparators: &[Option<BoundSet>]) -> Vec<BoundSet> {
+    let mut acc: Option<BoundSet> = None;
+
+    for comparator in comparators {
+        if let Some(bs) = comparator {
+            acc = match acc {
+                Some(so_far) => match so_far.intersect(bs) {
+                    Some(both) => Some(both),
+                    None => return Vec::new(),
+                },
+                None => Some(bs.clone()),
+            };
+        }
+    }
+
+    match acc {
+        Some(bs) => vec![bs],
+        None => Vec::new(),
+    }
 }
 
 // simple ::= primitive | partial | tilde | caret | garbage
